@@ -8,16 +8,25 @@
     * `hle : ∀ a b, a ≤ b ↔ ¬ b < a` — the carrier's order is total (ℝ, ℚ, floats without NaN): the code tests `x == 0.0`
       (IEEE equality = `x ≤ 0 ∧ 0 ≤ x`), the model tests `¬ x < 0 ∧ ¬ 0 < x`; they differ only for NaN parameters, which
       are outside the property's quantifier.
+    * the functions translated in the dialect `seq` (harness/translate_seq.py: `taurex.util.movingaverage`, the WHOLE
+      `NPoint.profile`, `TemperatureArray.__init__` / `profile`) keep arrays as lists of run-time length and raise where
+      Python / numpy raise (`Except.error "InvalidTemperatureException"`, `"ValueError"`); `outcomeOf` reads that as the
+      model's `Outcome`.  Externals are instantiated with the model's `npInterp` / `linspace` (TaurexModel/NpInterp.lean),
+      Python's `int()` / int → float are the parameters `pyInt` / `toF`, whose properties are explicit hypotheses (`hF`, `hw`,
+      `hhalf`); the cumsum trick of `movingaverage` equals the model's window means over ℝ only (`src_movingaverage`), it
+      enters the generic `src_npoint_profile` as the hypothesis `hma`.
   A source change that alters one of these functions makes the corresponding theorem fail to check.
 -/
 import TaurexModel.Gen.SrcC12
 import TaurexModel.Temperature
 import Proofs.C10Src
+import Proofs.SeqSrcReal
 set_option linter.unusedSectionVars false
 
 namespace Taurex.C12Src
 open Taurex Taurex.NpInterp Taurex.Temperature
 open Taurex.C10Src (listOf listOf_map listOf_congr listOf_getD zipWith_listOf listOf_length foldl_congr_mem)
+open Taurex.SeqSrc (outcomeOf outcomeOf_ok assemble_tie assemble_side ma_cumsum)
 
 section
 variable {α : Type} [Add α] [Sub α] [Mul α] [Div α] [Neg α] [LT α] [LE α]
@@ -216,6 +225,161 @@ theorem src_rodgers_profile (n : Nat) (h : α) (T p : Nat → α) (uc : Option (
     simp only [Option.map_some]
     rw [← src_rodgers_correlate]
 
+/-! ### the whole `NPoint.profile` (dialect `seq`: lists of run-time length, Python ints, numpy's shape tests) -/
+
+section
+variable [NatConv α] [OfNat α 100]
+
+/-- `wsize = int(…); if wsize % 2 == 0: wsize += 1` on Python ints, for a non-negative truncation, is `oddWindow` -/
+theorem odd_window_int (t : Nat) :
+    (if decide ((Int.ofNat t) % 2 = (0 : Int)) then Int.ofNat t + (1 : Int) else Int.ofNat t)
+      = Int.ofNat (if t % 2 = 0 then t + 1 else t) := by
+  simp only [Int.ofNat_eq_natCast, decide_eq_true_eq]
+  by_cases h : t % 2 = 0
+  · have : ((t : Int) % 2 = 0) := by omega
+    rw [if_pos this, if_pos h]; simp
+  · have : ¬ ((t : Int) % 2 = 0) := by omega
+    rw [if_neg this, if_neg h]
+
+theorem oddWindow_odd_gen (n : Nat) (w : α) : oddWindow n w % 2 = 1 := by
+  unfold oddWindow
+  simp only []
+  split <;> omega
+
+/-- `Pnodes = [Psurface, *p_points, Ptop]` with the optional end pressures resolved as the `seq` translation writes it -/
+theorem seq_pnodes (q : NPointParams α) (pressure : List α) :
+    ([Option.elim q.pSurface (pressure.getD 0 (0 : α))
+        (fun v__ => if (decide (v__ < (0 : α))) = true then pressure.getD 0 (0 : α) else v__)] ++ q.pPoints ++
+      [Option.elim q.pTop (pressure.getD (pressure.length - 1) (0 : α))
+        (fun v__ => if (decide (v__ < (0 : α))) = true then pressure.getD (pressure.length - 1) (0 : α) else v__)])
+      = q.pNodes pressure := by
+  unfold NPointParams.pNodes resolveP
+  cases q.pSurface <;> cases q.pTop <;> simp
+
+/-- **`NPoint.profile`, the whole function**, as `initialize_profile` leaves the object (`nlayers`, the pressure grid) and
+    with `np.all(Tnodes == Tnodes[0])` false (a Python list compared with a Python float; see `src_npoint_profile_alleq` for
+    the other reading), is `nPoint`: `InvalidTemperatureException` = `invalid`, numpy's ValueError at the slice store =
+    `error`.  `np.interp` is the model's `npInterp` (applied to every abscissa), `pyInt` is Python's `int()` and `toF` the
+    int → float conversion.  Hypotheses (all of them facts about numbers, none about the code):
+    `hF` float(n) is the model's `ofNat'`; `hw` the window product is truncated to a NON-NEGATIVE int (true for a
+    non-negative window); `hhalf` `int(k / 2) = k // 2` for `k ≥ 0`; `hma` the cumsum trick of `movingaverage` gives the
+    window means (`src_movingaverage`: exact over ℝ, up to rounding on floats).  Generic in the carrier. -/
+theorem src_npoint_profile (q : NPointParams α) (nlayers : Nat) (pressure : List α) (pyInt : α → Int) (toF : Int → α)
+    (hlen : q.tPoints.length = q.pPoints.length)
+    (hF : ∀ n : Nat, toF (Int.ofNat n) = ofNat' n)
+    (hw : pyInt (ofNat' nlayers * (q.window / 100)) = Int.ofNat (truncNat (ofNat' nlayers * (q.window / 100))))
+    (hhalf : ∀ k : Nat, pyInt (toF (Int.ofNat k) / 2) = Int.ofNat (k / 2))
+    (hma : Gen.SrcC12.movingaverage (q.interpolated pressure) (Int.ofNat (oddWindow nlayers q.window)) toF
+      = Except.ok (movingAverage (q.interpolated pressure) (oddWindow nlayers q.window))) :
+    outcomeOf "InvalidTemperatureException"
+      (Gen.SrcC12.npoint_profile q.pSurface q.pTop q.tSurface q.tTop false (fun x xp fp => npInterp xp fp x)
+        q.limitSlope nlayers q.pPoints pressure pyInt q.window q.tPoints toF)
+      = nPoint q nlayers pressure := by
+  have hT : ([q.tSurface] ++ q.tPoints ++ [q.tTop]) = q.tNodes := by simp [NPointParams.tNodes]
+  have hP := seq_pnodes q pressure
+  unfold Gen.SrcC12.npoint_profile nPoint
+  simp only [hT, hP]
+  rw [src_npoint_rejected q pressure hlen]
+  cases hr : q.rejected pressure
+  · simp only [Bool.false_eq_true, if_false]
+    have hTP : (List.map (fun x__ => npInterp (List.map (fun x__ => log10 x__) (List.reverse (q.pNodes pressure)))
+          (List.reverse q.tNodes) x__) (List.map (fun x__ => log10 x__) (List.reverse pressure)))
+        = q.interpolated pressure := by
+      unfold NPointParams.interpolated
+      simp only [List.map_map, List.map_reverse, Function.comp_def]
+    rw [hTP, hF, hw, odd_window_int]
+    have hodd : (if truncNat (ofNat' nlayers * (q.window / 100)) % 2 = 0
+        then truncNat (ofNat' nlayers * (q.window / 100)) + 1 else truncNat (ofNat' nlayers * (q.window / 100)))
+        = oddWindow nlayers q.window := rfl
+    rw [hodd, hma]
+    simp only []
+    obtain ⟨hle, hone⟩ := assemble_side (q.interpolated pressure) (oddWindow nlayers q.window)
+      (oddWindow_odd_gen nlayers q.window)
+    have hsub : Int.ofNat (q.interpolated pressure).length
+        - Int.ofNat (movingAverage (q.interpolated pressure) (oddWindow nlayers q.window)).length
+        = Int.ofNat ((q.interpolated pressure).length
+          - (movingAverage (q.interpolated pressure) (oddWindow nlayers q.window)).length) := by
+      simp only [Int.ofNat_eq_natCast]; omega
+    rw [hsub, hhalf]
+    exact assemble_tie "InvalidTemperatureException" (by decide) _ _ hone
+  · simp [outcomeOf]
+
+/-- a node list that fails `check_profile` makes `profile` raise `InvalidTemperatureException`, whatever the rest.  Generic. -/
+theorem src_npoint_profile_invalid (q : NPointParams α) (nlayers : Nat) (pressure : List α) (pyInt : α → Int)
+    (toF : Int → α) (allEq : Bool) (interp : α → List α → List α → α)
+    (hlen : q.tPoints.length = q.pPoints.length) (hv : q.rejected pressure = true) :
+    Gen.SrcC12.npoint_profile q.pSurface q.pTop q.tSurface q.tTop allEq interp
+        q.limitSlope nlayers q.pPoints pressure pyInt q.window q.tPoints toF
+      = Except.error "InvalidTemperatureException" := by
+  have hT : ([q.tSurface] ++ q.tPoints ++ [q.tTop]) = q.tNodes := by simp [NPointParams.tNodes]
+  have hP := seq_pnodes q pressure
+  unfold Gen.SrcC12.npoint_profile
+  simp only [hT, hP]
+  rw [src_npoint_rejected q pressure hlen, hv]
+  rfl
+
+/-- the other reading of `np.all(Tnodes == Tnodes[0])` (a numpy scalar `T_surface`: element-wise comparison, true exactly
+    when all node temperatures are equal): the profile that passes the node check is the constant `1 * T_surface`, one
+    value per layer.  Generic. -/
+theorem src_npoint_profile_alleq (q : NPointParams α) (nlayers : Nat) (pressure : List α) (pyInt : α → Int)
+    (toF : Int → α) (hlen : q.tPoints.length = q.pPoints.length) (hv : q.rejected pressure = false) :
+    Gen.SrcC12.npoint_profile q.pSurface q.pTop q.tSurface q.tTop true (fun x xp fp => npInterp xp fp x)
+        q.limitSlope nlayers q.pPoints pressure pyInt q.window q.tPoints toF
+      = Except.ok (pressure.map (fun _ => (1 : α) * q.tSurface)) := by
+  have hT : ([q.tSurface] ++ q.tPoints ++ [q.tTop]) = q.tNodes := by simp [NPointParams.tNodes]
+  have hP := seq_pnodes q pressure
+  unfold Gen.SrcC12.npoint_profile
+  simp only [hT, hP]
+  rw [src_npoint_rejected q pressure hlen, hv]
+  simp [NPointParams.tNodes]
+
 end
+
+/-! ### TemperatureArray (`__init__` + `profile`, one translation per calling pattern) -/
+
+/-- the model's reading of `scipy.interpolate.interp1d(x, y, bounds_error=False, fill_value=(lo, hi))` (kind='linear'): the
+    nodes are sorted by abscissa (stable), `np.interp` between them, the two fill values outside the node range — the
+    expression `tempArrayPressure` is built from (ASSUMPTIONS of harness/c12.py) -/
+def interp1dModel (xs ys : List α) (_boundsError : Bool) (fill : α × α) (x : α) : α :=
+  let nodes := sortByKey (xs.zip ys)
+  let sx := nodes.map (·.1)
+  let sy := nodes.map (·.2)
+  if x < sx.getD 0 0 then fill.1
+  else if sx.getD (sx.length - 1) 0 < x then fill.2
+  else npInterp sx sy x
+
+/-- **`TemperatureArray(tp_array, None, reverse)` + `profile`** (no pressure points: the table itself when it has one value
+    per layer, else `np.interp` over `np.linspace(1, 0, ·)[::-1]`) is `tempArray tp none rev`; `np.linspace` / `np.interp` are
+    the model's `linspace` / `npInterp`.  Generic. -/
+theorem src_temparray_plain [NatConv α] (tp : List α) (rev : Bool) (n : Nat) (pressure : List α) :
+    Gen.SrcC12.temparray_profile_plain (fun x xp fp => npInterp xp fp x) (fun a b k => linspace a b k) n
+        (Gen.SrcC12.temparray_init_plain tp rev)
+      = tempArray tp none rev n pressure := by
+  unfold Gen.SrcC12.temparray_profile_plain Gen.SrcC12.temparray_init_plain tempArray tempArrayPlain
+  simp only [decide_eq_true_eq]
+
+/-- **`TemperatureArray(tp_array, p_points, reverse)` + `profile`** (pressure points given: the interpolant built by
+    `__init__` from `log10(p_points)` and the table, with the fill values `(tp[-1], tp[0])`, applied to `log10` of every layer
+    pressure) is `tempArray tp (some pp) rev`, `interp1d` being `interp1dModel`.  Generic. -/
+theorem src_temparray_pressure [NatConv α] (tp pp : List α) (rev : Bool) (n : Nat) (pressure : List α) :
+    Gen.SrcC12.temparray_profile_pressure (Gen.SrcC12.temparray_init_pressure tp pp rev interp1dModel).2.2
+        (Gen.SrcC12.temparray_init_pressure tp pp rev interp1dModel).2.1 pressure
+      = tempArray tp (some pp) rev n pressure := by
+  unfold Gen.SrcC12.temparray_profile_pressure Gen.SrcC12.temparray_init_pressure tempArray tempArrayPressure
+    interp1dModel
+  simp only [List.map_map, Function.comp_def]
+
+end
+
+/-- **`taurex.util.movingaverage`** (the cumsum trick `ret = cumsum(a); ret[n:] = ret[n:] - ret[:-n]; ret[n-1:] / n`, with
+    the shape tests numpy makes at the subtraction and at the slice store) for a window `w ≥ 1` never raises and returns
+    the `len(a) - w + 1` window means of the model's `movingAverage` (none when the window is longer than the array).
+    An algebraic identity (telescoping sums): over ℝ. -/
+theorem src_movingaverage (a : List ℝ) (w : Nat) (hw : 1 ≤ w) (toF : Int → ℝ)
+    (hF : ∀ n : Nat, toF (Int.ofNat n) = (n : ℝ)) :
+    Gen.SrcC12.movingaverage a (Int.ofNat w) toF = Except.ok (movingAverage a w) := by
+  obtain ⟨h1, h2, h3⟩ := ma_cumsum a w hw (toF (Int.ofNat w)) (hF w)
+  unfold Gen.SrcC12.movingaverage
+  simp only [h1, h2, Bool.not_true, Bool.false_eq_true, if_false, h3]
 
 end Taurex.C12Src
